@@ -11,6 +11,7 @@ import (
 
 	"github.com/alecthomas/participle/v2"
 	"github.com/alecthomas/participle/v2/ebnf"
+	"github.com/alecthomas/participle/v2/lexer"
 )
 
 type xResult struct {
@@ -76,7 +77,7 @@ func countExpr(e *ebnf.Expression, c *ebnfCounts) {
 // parsed tree survives print + parse unchanged.
 func TestVerif_C14_EBNF(t *testing.T) {
 	res := &xResult{Check: "Parser.String EBNF", Property: "C14", Exhaustive: true,
-		Bound: "the grammar family of the C08 stand-in: one production with <= 4 nodes, two productions with <= 2 and <= 3 nodes (thorough: one production <= 5, two productions <= 3 and <= 3) over {literal \"x\", literal a\"\\b (needs escaping), production, sequence, choice, ? * + !, ~, (?= ), (?! ), capture}",
+		Bound: "the grammar family of the C08 stand-in: one production with <= 4 nodes, two productions with <= 2 and <= 3 nodes (thorough: one production <= 5, two productions <= 3 and <= 3) over {literal \"x\", literal a\"\\b (needs escaping), production, sequence, choice, ? * + !, ~, (?= ), (?! ), capture, redundant parentheses}; plus 7 grammars built with Build from struct tags: union root, union field, anonymous and embedded struct types, Parseable and custom productions, ( x* )?",
 		Rule: "distinct grammars; non-trivial = contains a modifier, ~ or a lookahead group"}
 	one, twoA, twoB := 4, 2, 3
 	if os.Getenv("VERIF_TIER") == "thorough" {
@@ -141,5 +142,139 @@ func TestVerif_C14_EBNF(t *testing.T) {
 			res.Samples = append(res.Samples, g.Desc+" => "+strings.ReplaceAll(g.EBNF, "\n", " "))
 		}
 	})
+	ebnfNamedCases(res)
 	res.emit(t)
+}
+
+// ---- grammars built by Build from struct tags ----
+
+type (
+	ebUnion interface{ ebU() }
+	ebUA    struct {
+		A string `@Ident`
+	}
+	ebUB struct {
+		B string  `"(" @Int`
+		C ebUnion `@@ ")"`
+	}
+	ebUnionField struct {
+		U []ebUnion `@@+`
+		V ebUnion   `( "," @@ )?`
+	}
+	ebAnon struct {
+		A struct {
+			C string `@Ident`
+		} `@@`
+		B []struct {
+			C string `@Int`
+			D *struct {
+				E string `@String`
+			} `@@?`
+		} `@@*`
+	}
+	ebEmbedded struct {
+		ebUA
+		Rest []ebUA `( "," @@ )*`
+	}
+	ebParens struct {
+		A []string `( @Ident* )? ( ( "a"+ ) )! ( ( "x" ( @Int+ ) ) )?`
+	}
+	ebParseable struct{ V string }
+	ebCustom    interface{ ebC() }
+	ebCustomV   struct{ V string }
+	ebUser      struct {
+		P ebParseable `@@`
+		C ebCustom    `( ":" @@ )?`
+	}
+)
+
+func (ebUA) ebU() {}
+func (ebUB) ebU() {}
+func (ebCustomV) ebC() {}
+func (p *ebParseable) Parse(lex *lexer.PeekingLexer) error {
+	p.V = lex.Next().Value
+	return nil
+}
+
+func ebnfCase[G any](res *xResult, userCode map[string]bool, options ...participle.Option) {
+	name := fmt.Sprintf("%T", new(G))
+	res.Evaluations++
+	res.Distinct++
+	var text string
+	var perr error
+	func() {
+		defer func() {
+			if r := recover(); r != nil {
+				perr = fmt.Errorf("panic: %v", r)
+			}
+		}()
+		p, err := participle.Build[G](options...)
+		if err != nil {
+			perr = fmt.Errorf("Build: %v", err)
+			return
+		}
+		text = p.String()
+	}()
+	if perr != nil {
+		res.violate("String() of the tag-built grammar %s: %v", name, perr)
+		return
+	}
+	tree, err := ebnf.ParseString(text)
+	if err != nil {
+		res.violate("not parseable EBNF for the tag-built grammar %s: %q: %v", name, text, err)
+		return
+	}
+	rootName := name[strings.LastIndex(name, ".")+1:]
+	rootName = strings.ToUpper(rootName[:1]) + rootName[1:]
+	if len(tree.Productions) == 0 || tree.Productions[0].Production != rootName {
+		res.violate("root production %s is not first for the tag-built grammar %s: %q", rootName, name, text)
+	}
+	defined := map[string]int{}
+	for _, p := range tree.Productions {
+		defined[p.Production]++
+	}
+	for n, k := range defined {
+		if k != 1 {
+			res.violate("production %s defined %d times for the tag-built grammar %s: %q", n, k, name, text)
+		}
+	}
+	var refs func(e *ebnf.Expression)
+	refs = func(e *ebnf.Expression) {
+		for _, alt := range e.Alternatives {
+			for _, term := range alt.Terms {
+				if term.Name != "" && defined[term.Name] == 0 && !userCode[term.Name] {
+					res.violate("production %s is referenced but not defined for the tag-built grammar %s: %q", term.Name, name, text)
+				}
+				if term.Group != nil {
+					refs(term.Group.Expr)
+				}
+			}
+		}
+	}
+	for _, p := range tree.Productions {
+		refs(p.Expression)
+	}
+	again, err := ebnf.ParseString(tree.String())
+	if err != nil {
+		res.violate("printed tree does not parse for the tag-built grammar %s: %q: %v", name, tree.String(), err)
+		return
+	}
+	if !reflect.DeepEqual(tree, again) {
+		res.violate("print/parse round trip changed the tree for the tag-built grammar %s: %q vs %q", name, text, tree.String())
+	}
+	if len(res.Samples) < 8 {
+		res.Samples = append(res.Samples, name+" => "+strings.ReplaceAll(text, "\n", " "))
+	}
+}
+
+func ebnfNamedCases(res *xResult) {
+	union := participle.Union[ebUnion](ebUA{}, ebUB{})
+	ebnfCase[ebUnion](res, nil, union)
+	ebnfCase[ebUnionField](res, nil, union)
+	ebnfCase[ebUB](res, nil, union)
+	ebnfCase[ebAnon](res, nil)
+	ebnfCase[ebEmbedded](res, nil)
+	ebnfCase[ebParens](res, nil)
+	ebnfCase[ebUser](res, map[string]bool{"EbParseable": true, "ebParseable": true, "EbCustom": true},
+		participle.ParseTypeWith(func(lex *lexer.PeekingLexer) (ebCustom, error) { return ebCustomV{V: lex.Next().Value}, nil }))
 }
